@@ -110,10 +110,22 @@ def glib_force_quit_rule(case, g):
     return None
 
 
+def gen_c09_closed_pushes(rnd, sid):
+    """a wizard: the only screen on the stack closes, its closed() hook puts the next step on the stack (schedule / push): the application goes on with it"""
+    k = rnd.randint(1, 3)
+    screens = []
+    for j in range(k + 1):
+        sc = {"input": [{"ret": rnd.choice(["CLOSE", "c"])}] + [{"ret": "CLOSE"}] * 2}
+        if j < k: sc["closed"] = [{"acts": [[rnd.choice(["push", "schedule"]), j + 1, rnd.choice([None, j])]]}]
+        screens.append(dict(id=j, name="S%d" % j, title=None, text="step %d" % j, height=30, input_required=True, no_separator=False, skip_check=False, scripts=sc))
+    return dict(op="machine", mode="c09", width=80, screens=screens, handlers=[], init=[["schedule", 0, None]], stdin=["x"] * (k + 2), quit_cb=rnd.choice([None, 3]),
+                quit_screen=None, exc_handler=rnd.random() < 0.5, run_empty=False, deliver_at=[])
+
+
 def generate(rnd, tier):
     n = 500 if tier == "quick" else 6000
     sid = SidCounter()
-    cases = [gen_fq_handlers(rnd, sid) for _ in range(n // 5)] + [gen_c09_exit_in_closed(rnd, sid) for _ in range(n // 10)] + [gen_c09(rnd, sid) for _ in range(n)] + [gen_c09_modal_last(rnd, sid) for _ in range(n // 3)] + [gen_case(rnd, "loop", sid) for _ in range(n // 2)] + [gen_case(rnd, "app", sid) for _ in range(n // 3)] + \
+    cases = [gen_c09_closed_pushes(rnd, sid) for _ in range(n // 10)] + [gen_fq_handlers(rnd, sid) for _ in range(n // 5)] + [gen_c09_exit_in_closed(rnd, sid) for _ in range(n // 10)] + [gen_c09(rnd, sid) for _ in range(n)] + [gen_c09_modal_last(rnd, sid) for _ in range(n // 3)] + [gen_case(rnd, "loop", sid) for _ in range(n // 2)] + [gen_case(rnd, "app", sid) for _ in range(n // 3)] + \
             [gen_case(rnd, "tame", sid) for _ in range(n // 5)]
     if tier == "thorough":
         from harness.gen.exhaustive import loop_programs
@@ -189,6 +201,15 @@ def monitor(case, obs):
         cause = cause or any(ev[0] == "cb" and ev[2] == "input" for i, ev, ctx in x.events())              # quit key / close of the last screen from input handling
         cause = cause or any(ev[0] == "api" and ev[1] in ("close_direct", "close_sig", "replace", "push_modal", "get_user_input") for i, ev, ctx in x.events())
         if not cause: return "run() returned without any stop request (no exit, force-quit, close of the outermost loop or empty stack)"
+        # "the last screen closes" ends the application - a screen that is not the last one does not: a run that returned although screens are on the stack, with no
+        # exit / force-quit / loop operation / quit key anywhere, was ended by nothing the property allows
+        end_stack = next((c["stack"] for e, c in reversed(x.x) if not c.get("reader") and "stack" in c), None)
+        if end_stack:
+            explicit = any(ev[0] == "api" and ev[1] in ("raise_exit", "force_quit", "close_loop", "new_loop") for i, ev, ctx in x.events())
+            keys = [ev[4] for i, ev, ctx in x.events() if ev[0] == "cb" and ev[2] == "input"]
+            rets = [e.get("ret") for s_ in case["screens"] for e in ((s_.get("scripts") or {}).get("input") or [])]
+            if not explicit and "q" not in keys and "q" not in rets:
+                return "run() returned although the screen stack is not empty (%r) and nothing requested an exit: closing a screen that is not the last one ended the application" % (end_stack,)
     elif quitcbs:
         return "the quit callback was invoked but run() did not return (%r)" % (out,)
     # run() refuses to start with nothing scheduled
